@@ -29,6 +29,7 @@ Dissimilarity
 
 """
 import abc
+import copy
 import random
 from abc import ABCMeta
 from typing import Iterable
@@ -507,7 +508,9 @@ class CombinedCategoricalDissimilarity(AbstractDissimilarity):
 
         if cat_dissim.delta_empty != delta_empty:
             # the categorical component takes the combined dissimilarity's delta_empty:
-            # its compiled form must be rebuilt with it too
+            # its compiled form must be rebuilt with it too (on a copy: the caller's
+            # object may be the component of another combined dissimilarity)
+            cat_dissim = copy.copy(cat_dissim)
             cat_dissim.delta_empty = np.float32(delta_empty)
             cat_dissim.d_mat = cat_dissim.compile_d_mat()
         self.positional_dissim: AbstractDissimilarity = pos_dissim
